@@ -4,6 +4,7 @@ import ElvisVerif.Lemmas.TcpRelOrder
 import ElvisVerif.Lemmas.TcpRelData
 import ElvisVerif.Lemmas.TcpRelData2
 import ElvisVerif.Lemmas.TcpRelLoss
+import ElvisVerif.Lemmas.TcpRelRough
 import ElvisVerif.Props.C03FinData
 /-!
 # C03 — release after both applications close, from ANY reachable state of the closed system (closes after quiescence)
@@ -320,9 +321,10 @@ example : ∃ sys0 s : Sys, ∃ rs, ∃ ta tb : Tcb,
 
 /-! ## close issued after loss, with data in flight and unsent text queued -/
 
-/-- **Close after loss** (`_partial`: calm starting states with an idle peer; one fair round).  Let `s` be a reachable
-    *calm* state of the closed system (`Props/C01Converge.lean`: both ESTABLISHED, SYN acknowledged, MTU >
-    SPACE_FOR_HEADERS, reorder heaps / receive buffers / one-shot queues empty, retransmission timers ≤ RTO) in which the
+/-- **Close after loss** (`_partial`: rough starting states with an idle peer; one fair round).  Let `s` be a reachable
+    *rough* state of the closed system (`Lemmas/TcpFullPhase.lean`: both ESTABLISHED, SYN acknowledged, MTU >
+    SPACE_FOR_HEADERS, receive buffers empty, retransmission timers ≤ RTO; **ANY reorder heap on B's side** — segments
+    parked behind the lost data —, ANY one-shot queues; the closer's own reorder heap empty) in which the
     closer A has **ANYTHING on its retransmission queue** — data segments lost in any number, or received but their ACKs
     lost, or both — and ANY amount of unsent text (`|unsent| ≤ 65535·n`; none at all is allowed: then `close()` itself
     numbers the FIN, behind the unacknowledged data), and B is idle (`SND.UNA = SND.NXT`, nothing unsent).  A's
@@ -338,7 +340,8 @@ example : ∃ sys0 s : Sys, ∃ rs, ∃ ta tb : Tcb,
 theorem c03_close_after_loss_partial (ia ib : Seq) (ma mb : U16) (simultaneous : Bool) (sys0 s : Sys)
     (rs : List Res) (hma : SPACE_FOR_HEADERS ≤ ma.toNat) (hmb : SPACE_FOR_HEADERS ≤ mb.toNat)
     (h0 : Sys.run {} [.open .A ia ma, if simultaneous then .open .B ib mb else .listen .B ib mb] = .ok (sys0, rs))
-    (hrun : PlainRun sys0 s) (h31 : RoomH s) (ta tb : Tcb) (hc : Calm s ta tb)
+    (hrun : PlainRun sys0 s) (h31 : RoomH s) (ta tb : Tcb) (hc : Full.Rough s ta tb)
+    (hheapA : ta.incoming.segments = [])
     (hub : tb.snd.una = tb.snd.nxt) (tbt : tb.outgoing.text = [])
     (n : Nat) (hlen : ta.outgoing.text.length ≤ 65535 * n) :
     ∃ s1 ta1 tb1 s2, closeLossFrontN n s = .ok s1 ∧ FinRun s s1 ∧ s1.a.tcb = some ta1 ∧ s1.b.tcb = some tb1 ∧
@@ -357,9 +360,10 @@ theorem c03_close_after_loss_partial (ia ib : Seq) (ma mb : U16) (simultaneous :
       (s2.side .A).tcb = none ∧ (s2.side .B).tcb = none ∧
       (s2.side .A).submitted = (s.side .A).submitted ∧ (s2.side .B).submitted = (s.side .B).submitted ∧
       (s2.side .A).delivered = (s.side .A).delivered ∧ (s2.side .B).delivered = (s1.side .B).delivered := by
+    have hf := finv_of_reach ia ib ma mb simultaneous sys0 s rs hma hmb h0 hrun h31
     by_cases hne : ta.outgoing.text = []
-    · exact close_inflight_after_loss n s hg ta tb hc hub tbt hne
-    · exact close_after_loss n s hg ta tb hc hub tbt hne hlen
+    · exact close_inflight_rough n s hg hf ta tb hc hheapA hub tbt hne
+    · exact close_after_loss_rough n s hg hf ta tb hc hheapA hub tbt hne hlen
   obtain ⟨s1, ta1, tb1, s2, e1, r1, h1a, h1b, sa, sb, ca, cb, u1, u2, u3, e12, e2, r2, na, nb, v1, v2, v3, v4⟩ := hmain
   have hfr : FinRun sys0 s1 := (FinRun.of_plain hrun).trans r1
   have hlt : C01.Lt31 s1 := by
@@ -436,15 +440,56 @@ def closeLossCheck0 : Bool :=
 
 example : closeLossCheck0 = true := by decide
 
-/-- the hypotheses of `c03_close_after_loss_partial` hold in that reachable state (`n = 1`; two LOST data segments on A's
-    retransmission queue, B has received nothing), and the schedule, evaluated, ends as promised -/
+/-- handshake completed; A writes [1, 2, 3] and emits them (history element 3) — LOST; A writes [4, 5] and emits them
+    (element 4) — delivered: PARKED in B's reorder heap behind the gap; A's application writes [6] -/
+def roughDataOps : List Op :=
+  [.emit .A, .deliver .B 0, .emit .B, .deliver .A 1, .emit .A, .deliver .B 2,
+   .write .A [1, 2, 3], .emit .A, .write .A [4, 5], .emit .A, .deliver .B 4, .write .A [6]]
+
+def roughXB (t : Tcb) : Bool :=
+  t.state == .Established && t.incoming.text.isEmpty && t.snd.una != t.snd.iss &&
+  decide (SPACE_FOR_HEADERS < t.mtu.toNat) && decide (t.timeouts.retransmission ≤ RTO)
+
+theorem roughXB_sound (t : Tcb) (h : roughXB t = true) : Full.RoughX t := by
+  unfold roughXB at h
+  simp only [Bool.and_eq_true, beq_iff_eq, List.isEmpty_iff, bne_iff_ne, ne_eq, decide_eq_true_eq] at h
+  obtain ⟨⟨⟨⟨h1, h2⟩, h3⟩, h4⟩, h5⟩ := h
+  exact ⟨h1, h2, h3, h4, h5⟩
+
+def closeRoughCheck : Bool :=
+  match Sys.run {} [.open .A 1000 1500, .listen .B 5000 1500] with
+  | .ok (sys0, _) =>
+    match plainRunB sys0 roughDataOps with
+    | some s =>
+      decide (s.a.submitted.length + 2 < 2147483648) && decide (s.b.submitted.length + 2 < 2147483648) &&
+      (match s.a.tcb, s.b.tcb with
+        | some ta, some tb => roughXB ta && roughXB tb && ta.incoming.segments.isEmpty &&
+            tb.snd.una == tb.snd.nxt && tb.outgoing.text.isEmpty &&
+            ta.outgoing.text == [6] && ta.outgoing.retransmit.length == 2 && tb.incoming.segments.length == 1 &&
+            s.b.delivered == []
+        | _, _ => false) &&
+      (match closeLossFrontN 1 s with
+        | .ok s1 =>
+          (match s1.a.tcb, s1.b.tcb with
+            | some ta1, some tb1 => ta1.state == .FinWait2 && tb1.state == .CloseWait
+            | _, _ => false) && s1.b.delivered == [1, 2, 3, 4, 5, 6] &&
+          (match releaseTail s1 with
+            | .ok s2 => s2.a.tcb.isNone && s2.b.tcb.isNone && s2.b.delivered == [1, 2, 3, 4, 5, 6] && s2.a.delivered == []
+            | .error _ => false)
+        | .error _ => false)
+    | none => false
+  | .error _ => false
+
+/-- the hypotheses of `c03_close_after_loss_partial` hold in that reachable state (`n = 1`; one LOST data segment and one
+    delivered out of order on A's retransmission queue, the latter PARKED in B's reorder heap, B has received nothing in
+    order), and the schedule, evaluated, ends as promised -/
 example : ∃ sys0 s : Sys, ∃ rs, ∃ ta tb : Tcb,
     Sys.run {} [.open .A 1000 1500, if false then .open .B 5000 1500 else .listen .B 5000 1500] = .ok (sys0, rs) ∧
-    PlainRun sys0 s ∧ RoomH s ∧ Calm s ta tb ∧ tb.snd.una = tb.snd.nxt ∧ tb.outgoing.text = [] ∧
-    ta.outgoing.text.length ≤ 65535 * 1 ∧ ta.outgoing.retransmit.length = 2 ∧
-    s.b.delivered = [] := by
-  have key : closeLossCheck = true := by decide
-  unfold closeLossCheck at key
+    PlainRun sys0 s ∧ RoomH s ∧ Full.Rough s ta tb ∧ ta.incoming.segments = [] ∧ tb.snd.una = tb.snd.nxt ∧
+    tb.outgoing.text = [] ∧ ta.outgoing.text.length ≤ 65535 * 1 ∧ ta.outgoing.retransmit.length = 2 ∧
+    tb.incoming.segments.length = 1 ∧ s.b.delivered = [] := by
+  have key : closeRoughCheck = true := by decide
+  unfold closeRoughCheck at key
   split at key
   · rename_i sys0 rs e0
     split at key
@@ -454,11 +499,14 @@ example : ∃ sys0 s : Sys, ∃ rs, ∃ ta tb : Tcb,
       split at k1
       · rename_i ta tb hta htb
         simp only [Bool.and_eq_true, List.isEmpty_iff, beq_iff_eq] at k1
-        obtain ⟨⟨⟨⟨⟨⟨x1, x2⟩, x3⟩, x4⟩, x5⟩, x6⟩, x7⟩ := k1
+        obtain ⟨⟨⟨⟨⟨⟨⟨⟨x1, x2⟩, x3⟩, x4⟩, x5⟩, x6⟩, x7⟩, x8⟩, x9⟩ := k1
         exact ⟨sys0, s, rs, ta, tb, e0, plainRunB_sound _ _ _ e1, ⟨r1, r2⟩,
-          ⟨hta, htb, calmXB_sound _ x1, calmXB_sound _ x2⟩, x3, x4, by rw [x5]; decide, x6, x7⟩
+          ⟨hta, htb, roughXB_sound _ x1, roughXB_sound _ x2⟩, x3, x4, x5, by rw [x6]; decide, x7, x8, x9⟩
       · simp at k1
     · simp at key
   · simp at key
+
+/-- the two calm states above (two lost segments + one unsent byte; one lost segment, nothing unsent), evaluated -/
+example : closeLossCheck = true := by decide
 
 end Elvis.Tcp
